@@ -692,9 +692,12 @@ def check_creds_mirror(ctx, tool):
             if e.kind == 'call' and method_call(e.node, 'update'):
                 for a_ in e.node.args:
                     a_ = t.expand(a_)
-                    if isinstance(a_, ast.Dict):
-                        mine |= {k.value for k in a_.keys
-                                 if isinstance(k, ast.Constant)}
+                    # keys of the display, also of displays merged into it
+                    # (`**({...} if c else {})`)
+                    for d_ in ast.walk(a_):
+                        if isinstance(d_, ast.Dict):
+                            mine |= {k.value for k in d_.keys
+                                     if isinstance(k, ast.Constant)}
                 mine |= {k.arg for k in e.node.keywords if k.arg}
         for d in t.en.defs.values():
             if isinstance(d, ast.Call) and isinstance(
